@@ -38,8 +38,26 @@ type CustomErr struct{ N int }
 
 func (c *CustomErr) Error() string { return "custom" + strconv.Itoa(c.N) }
 
+// IsErr has a custom Is method: errors.Is(x, target) is true for its target although target is not on its chain.
+type IsErr struct{ target error }
+
+func (e *IsErr) Error() string        { return "iserr" }
+func (e *IsErr) Is(t error) bool      { return t == e.target }
+
+// AsErr has a custom As method: errors.As(x, &*CustomErr) succeeds and yields the *CustomErr it holds.
+type AsErr struct{ give *CustomErr }
+
+func (e *AsErr) Error() string { return "aserr" }
+func (e *AsErr) As(t interface{}) bool {
+	if p, ok := t.(**CustomErr); ok {
+		*p = e.give
+		return true
+	}
+	return false
+}
+
 type goErrs struct {
-	E1, W3, J4, WI6, JI7, E9, WS12 error
+	E1, W3, J4, WI6, JI7, E9, WS12, X14, WX15, A16 error
 	C2                             *CustomErr
 	I5                             *goja.InterruptedError
 	S8                             *goja.StackOverflowError
@@ -60,8 +78,11 @@ func newGoErrs() *goErrs {
 	g.S8 = &goja.StackOverflowError{}
 	g.E9 = errors.New("E9")
 	g.WS12 = fmt.Errorf("w12: %w", error(g.S8))
-	g.names = []string{"E1", "C2", "W3", "J4", "I5", "WI6", "JI7", "S8", "E9", "WS12"}
-	g.all = []error{g.E1, g.C2, g.W3, g.J4, g.I5, g.WI6, g.JI7, g.S8, g.E9, g.WS12}
+	g.X14 = &IsErr{target: g.E1}
+	g.WX15 = fmt.Errorf("w15: %w", g.X14)
+	g.A16 = &AsErr{give: g.C2}
+	g.names = []string{"E1", "C2", "W3", "J4", "I5", "WI6", "JI7", "S8", "E9", "WS12", "X14", "WX15", "A16"}
+	g.all = []error{g.E1, g.C2, g.W3, g.J4, g.I5, g.WI6, g.JI7, g.S8, g.E9, g.WS12, g.X14, g.WX15, g.A16}
 	return g
 }
 
@@ -156,6 +177,25 @@ const srcJS = `(function(next, log, idx, kind) {
     var g = (function*() { yield 1; try { next(); } finally { log(idx, "f"); } })();
     g.next(); g.next();
   };
+  if (kind === "JIT") return function jit() {
+    var it = {};
+    it[Symbol.iterator] = function() {
+      var n = 0;
+      return {next: function() { return n++ ? {done: true} : {value: 1, done: false}; },
+              return: function() { log(idx, "r"); throw new Error("ret"); }};
+    };
+    for (var x of it) { next(); }
+  };
+  if (kind === "JY") return function jy() {
+    var inner = function*() { yield 1; next(); };
+    var g = (function*() { yield* inner(); })();
+    g.next(); g.next();
+  };
+  if (kind === "JYF") return function jyf() {
+    var inner = function*() { yield 1; next(); };
+    var g = (function*() { try { yield* inner(); } finally { log(idx, "f"); } })();
+    g.next(); g.next();
+  };
   if (kind === "JA") return async function ja() {
     next();
   };
@@ -195,7 +235,7 @@ const srcIntr = `(function(intr) { return function thrower() { intr(); for (;;) 
 const srcSO = `(function() { return function thrower() { thrower(); }; })`
 
 var (
-	prgJS    = goja.MustCompile("frames.js", srcJS, false)
+	prgJS    = map[int]*goja.Program{} // "f<idx>.js": the file name of a position identifies the frame
 	prgShims = goja.MustCompile("shims.js", srcShims, false)
 	prgEntry = goja.MustCompile("entry.js", "__entry()", false)
 	prgThrow = goja.MustCompile("thrower.js", srcThrow, false)
@@ -211,6 +251,7 @@ var (
 // rethrow sites of srcJS: line of "throw e;" per kind
 var rethrowLine = map[string]int{}
 var rethrowCol int
+var creationLine int
 
 func init() {
 	lines := strings.Split(srcJS, "\n")
@@ -227,6 +268,12 @@ func init() {
 	}
 	for i := 0; i < 16; i++ {
 		prgRP[i] = goja.MustCompile("rp.js", "__c"+strconv.Itoa(i)+"()", false)
+		prgJS[i] = goja.MustCompile("f"+strconv.Itoa(i)+".js", srcJS, false)
+	}
+	for i, l := range strings.Split(srcShims, "\n") {
+		if strings.Contains(l, "R1: new Error") {
+			creationLine = i + 1
+		}
 	}
 }
 
@@ -236,7 +283,7 @@ type caseT struct {
 	r      *goja.Runtime
 	g      *goErrs
 	shims  *goja.Object
-	jsFac  goja.Callable
+	jsFacs map[int]goja.Callable
 	vals   map[string]goja.Value
 	valsOk bool
 	order  []string
@@ -252,6 +299,18 @@ func (c *caseT) must(v goja.Value, err error) goja.Value {
 		panic("harness setup: " + err.Error())
 	}
 	return v
+}
+
+func (c *caseT) jsFacFor(idx int) goja.Callable {
+	if f, ok := c.jsFacs[idx]; ok {
+		return f
+	}
+	if c.jsFacs == nil {
+		c.jsFacs = map[int]goja.Callable{}
+	}
+	f, _ := goja.AssertFunction(c.must(c.r.RunProgram(prgJS[idx])))
+	c.jsFacs[idx] = f
+	return f
 }
 
 func (c *caseT) shim(name string, args ...goja.Value) goja.Value {
@@ -338,10 +397,16 @@ func (d *dynObj) Keys() []string                 { return nil }
 func (c *caseT) mkFrame(kind string, idx int, callee goja.Value) goja.Value {
 	r := c.r
 	switch kind {
-	case "J0", "JC", "JR", "JF", "JCF", "JRF", "JI", "JG", "JGF", "JA", "JAW":
-		return c.must(c.jsFac(goja.Undefined(), callee, r.ToValue(c.logFn), r.ToValue(idx), r.ToValue(kind)))
+	case "J0", "JC", "JR", "JF", "JCF", "JRF", "JI", "JG", "JGF", "JA", "JAW", "JIT", "JY", "JYF":
+		return c.must(c.jsFacFor(idx)(goja.Undefined(), callee, r.ToValue(c.logFn), r.ToValue(idx), r.ToValue(kind)))
 	case "FC":
 		return r.ToValue(func(call goja.FunctionCall) goja.Value { c.callNext(callee); return goja.Undefined() })
+	case "FCS": // swallow whatever error the callee failed with
+		fn, _ := goja.AssertFunction(callee)
+		return r.ToValue(func(call goja.FunctionCall) goja.Value {
+			_, _ = fn(goja.Undefined())
+			return goja.Undefined()
+		})
 	case "FCV": // re-raise the VALUE of a caught exception
 		fn, _ := goja.AssertFunction(callee)
 		return r.ToValue(func(call goja.FunctionCall) goja.Value {
@@ -545,15 +610,20 @@ func (c *caseT) siteName(ex *goja.Exception) string {
 	if p.Filename == "thrower.js" && p.Line == 1 && p.Column >= c.throwCol && p.Column <= c.throwColHi {
 		return "T"
 	}
-	if p.Filename == "frames.js" {
-		for k, l := range rethrowLine {
+	if len(p.Filename) > 4 && p.Filename[0] == 'f' && strings.HasSuffix(p.Filename, ".js") && p.Filename != "frames.js" {
+		idx := p.Filename[1 : len(p.Filename)-3]
+		for _, l := range rethrowLine {
 			if l == p.Line && p.Column == rethrowCol {
-				return "R" + k
+				return "R" + idx
 			}
 		}
-	}
-	if p.Filename == "frames.js" || p.Filename == "thrower.js" {
 		return fmt.Sprintf("?%s:%d:%d", p.Filename, p.Line, p.Column)
+	}
+	if p.Filename == "thrower.js" {
+		return fmt.Sprintf("?%s:%d:%d", p.Filename, p.Line, p.Column)
+	}
+	if p.Filename == "shims.js" && p.Line == creationLine {
+		return "C"
 	}
 	return "o"
 }
@@ -572,7 +642,6 @@ func runCase(line string) string {
 	c.g.excName = func(ex *goja.Exception) string { return c.valName(ex.Value()) }
 	r := c.r
 	c.shims = c.must(r.RunProgram(prgShims)).(*goja.Object)
-	c.jsFac, _ = goja.AssertFunction(c.must(r.RunProgram(prgJS)))
 	r.SetPromiseRejectionTracker(func(p *goja.Promise, op goja.PromiseRejectionOperation) {
 		if op == goja.PromiseRejectionReject {
 			c.rej = append(c.rej, c.valName(p.Result()))
